@@ -3,8 +3,11 @@ C16 – re-statements of the function-outline ties of source files this property
 them (bin/mk_dependency_ties.py; hand-run): a source change there is reported for C16 as well.
 -/
 import Uniflow.Props.C15TieSrc
+import Uniflow.Props.C09TieLayer
 
 theorem C16.dep_C15_types_map_as_modelled_1 : type_of% C15.src_types_map_as_modelled_1 := C15.src_types_map_as_modelled_1
 theorem C16.dep_C15_types_map_as_modelled_2 : type_of% C15.src_types_map_as_modelled_2 := C15.src_types_map_as_modelled_2
 theorem C16.dep_C15_types_map_as_modelled_3 : type_of% C15.src_types_map_as_modelled_3 := C15.src_types_map_as_modelled_3
 theorem C16.dep_C15_types_map_as_modelled_4 : type_of% C15.src_types_map_as_modelled_4 := C15.src_types_map_as_modelled_4
+theorem C16.dep_C09_scheme_codec_as_modelled : type_of% C09.src_scheme_codec_as_modelled := C09.src_scheme_codec_as_modelled
+theorem C16.dep_C09_scheme_builder_as_modelled : type_of% C09.src_scheme_builder_as_modelled := C09.src_scheme_builder_as_modelled
